@@ -94,8 +94,12 @@ pub fn is_apply_op(op: Rc<SExp>) -> bool {
 pub fn get_fun_hash(op: Rc<SExp>, sexp: Rc<SExp>) -> Option<(Vec<u8>, Rc<SExp>, Rc<SExp>)> {
     if let SExp::Cons(_, prog, args) = sexp.borrow() {
         if is_apply_op(op) {
-            if let SExp::Cons(_, env, _) = args.borrow() {
-                return Some((clvm::sha256tree(prog.clone()), prog.clone(), env.clone()));
+            if let SExp::Cons(_, env, tail) = args.borrow() {
+                // An apply with anything after its second argument fails in the
+                // evaluator; it is not a function call to show a frame for.
+                if !truthy(tail.clone()) {
+                    return Some((clvm::sha256tree(prog.clone()), prog.clone(), env.clone()));
+                }
             }
         }
     }
